@@ -398,8 +398,48 @@ class SchemaGen:
         return s, self.r.choice(alts)[1]
 
     def derived_(self, depth):
-        k = self.r.choice(["add", "required", "native", "native"])
+        k = self.r.choice(["add", "required", "native", "native", "subst", "subst2", "alias2", "union_alias", "required_add"])
         self._count("derived:" + k)
+        if k in ("subst", "subst2"):
+            # the result of an operation is a schema like any other: substitute the witness (once; or a part of it, then all)
+            from d42 import substitute
+            t, w = self._any_schema(depth - 1)
+
+            def part(v):
+                if isinstance(v, dict) and v:
+                    ks = self.r.sample(list(v), self.r.randint(0, len(v)))
+                    return {kk: part(v[kk]) for kk in v if kk in ks}
+                return v
+            try:
+                if k == "subst2":
+                    t = substitute(t, part(w))
+                return substitute(t, w), w
+            except Exception:  # noqa: BLE001
+                return t, w
+        if k == "alias2":
+            t, w = self._any_schema(depth - 1)
+            return schema.alias("Outer", schema.alias("Inner", t)), w
+        if k == "union_alias":
+            (a, aw), (b, bw), (c, cw) = self._any_schema(depth - 1), self._any_schema(depth - 1), self.scalar()
+            return schema.alias("L", a) | (schema.alias("R", b) | c), self.r.choice([aw, bw, cw])
+        if k == "required_add":
+            (a, aw), (b, bw) = self.dict_(depth), self.dict_(depth)
+            from niltype import Nil
+            sm = a + b
+            keys = sm.props.get("keys")
+            if keys is Nil:
+                return sm, {}
+            w = {}
+            bkeys = b.props.get("keys")
+            for key, (vs, opt) in keys.items():
+                if key is Ellipsis:
+                    continue
+                src = bw if (bkeys is not Nil and key in bkeys) else aw
+                if key in src:
+                    w[key] = src[key]
+                else:
+                    return b, bw
+            return make_required(sm), w
         if k == "add":
             (a, aw), (b, bw) = self.dict_(depth), self.dict_(depth)
             s = a + b
